@@ -95,6 +95,7 @@ type c11Model struct {
 	inClosure, moves       map[*ssa.Function]bool // moves: may store the cursor (transitively)
 	mapCache               map[*ssa.Global]map[int64]int64
 	flows                  map[*ssa.Function]*c11Flow
+	sums                   map[*ssa.Function][3]int
 }
 
 func (m *c11Model) fname(i int) string { return m.T.Obj().Name() + "." + m.st.Field(i).Name() }
@@ -214,7 +215,7 @@ func c11Resolve(c *Ctx, p *Prog, rule string) *c11Model {
 		return bad("expected (board, bytes) parameters")
 	}
 	pb, pfen := root.Params[0], root.Params[1]
-	m := &c11Model{p: p, root: root, fBuf: -1, fLen: -1, fCur: -1, fB: -1, inClosure: map[*ssa.Function]bool{}, moves: map[*ssa.Function]bool{}, mapCache: map[*ssa.Global]map[int64]int64{}, flows: map[*ssa.Function]*c11Flow{}}
+	m := &c11Model{p: p, root: root, fBuf: -1, fLen: -1, fCur: -1, fB: -1, inClosure: map[*ssa.Function]bool{}, moves: map[*ssa.Function]bool{}, mapCache: map[*ssa.Global]map[int64]int64{}, flows: map[*ssa.Function]*c11Flow{}, sums: map[*ssa.Function][3]int{}}
 	// roles of the fields: from what the literal stores into them
 	allInstrs(root, func(in ssa.Instruction) {
 		st, _ := in.(*ssa.Store)
@@ -379,6 +380,14 @@ func c11Resolve(c *Ctx, p *Prog, rule string) *c11Model {
 }
 
 func c11AsValue(in ssa.Instruction) ssa.Value { v, _ := in.(ssa.Value); return v }
+
+// c11Name: "pkg.Func" / "pkg.Type.Method" of a declared function; "" for anonymous functions and wrappers.
+func c11Name(fn *ssa.Function) string {
+	if obj := fnObj(fn); fn != nil && obj != nil {
+		return externName(obj)
+	}
+	return ""
+}
 
 // staticClosure: fn and the functions of the parser closure it reaches through static calls.
 func (m *c11Model) staticClosure(fn *ssa.Function) []*ssa.Function {
@@ -611,15 +620,21 @@ func (m *c11Model) constMap(v ssa.Value) map[int64]int64 {
 
 // c11St is the abstract state at a program point of a parser method.
 type c11St struct {
-	ok bool              // reached
-	K  int               // cursor+K < len holds (K = -1: nothing known)
-	Eq map[*ssa.UnOp]int // cursor == (value of load L) + Eq[L]
+	ok   bool              // reached
+	K    int               // cursor+K < len holds (K = -1: nothing known)
+	Eq   map[*ssa.UnOp]int // cursor == (value of load L) + Eq[L]
+	Pend map[*ssa.Call]int // cursor+Pend[c] < len holds if the error result of call c was nil
 }
 
+func c11NewSt(k int) c11St { return c11St{true, k, map[*ssa.UnOp]int{}, map[*ssa.Call]int{}} }
+
 func (s c11St) clone() c11St {
-	n := c11St{s.ok, s.K, make(map[*ssa.UnOp]int, len(s.Eq))}
+	n := c11St{s.ok, s.K, make(map[*ssa.UnOp]int, len(s.Eq)), make(map[*ssa.Call]int, len(s.Pend))}
 	for k, v := range s.Eq {
 		n.Eq[k] = v
+	}
+	for k, v := range s.Pend {
+		n.Pend[k] = v
 	}
 	return n
 }
@@ -631,18 +646,28 @@ func c11Meet(a, b c11St) c11St {
 		}
 		return b.clone()
 	}
-	r := c11St{true, min(a.K, b.K), map[*ssa.UnOp]int{}}
+	r := c11NewSt(min(a.K, b.K))
 	for l, d := range a.Eq {
 		if d2, ok := b.Eq[l]; ok && d2 == d {
 			r.Eq[l] = d
+		}
+	}
+	for c, k := range a.Pend {
+		if k2, ok := b.Pend[c]; ok {
+			r.Pend[c] = min(k, k2)
 		}
 	}
 	return r
 }
 
 func c11Same(a, b c11St) bool {
-	if a.ok != b.ok || a.K != b.K || len(a.Eq) != len(b.Eq) {
+	if a.ok != b.ok || a.K != b.K || len(a.Eq) != len(b.Eq) || len(a.Pend) != len(b.Pend) {
 		return false
+	}
+	for c, k := range a.Pend {
+		if k2, ok := b.Pend[c]; !ok || k2 != k {
+			return false
+		}
 	}
 	for l, d := range a.Eq {
 		if d2, ok := b.Eq[l]; !ok || d2 != d {
@@ -652,7 +677,7 @@ func c11Same(a, b c11St) bool {
 	return true
 }
 
-func (s *c11St) kill() { s.K, s.Eq = -1, map[*ssa.UnOp]int{} }
+func (s *c11St) kill() { s.K, s.Eq, s.Pend = -1, map[*ssa.UnOp]int{}, map[*ssa.Call]int{} }
 
 type c11Flow struct {
 	m    *c11Model
@@ -720,6 +745,11 @@ func (f *c11Flow) step(s *c11St, in ssa.Instruction) {
 			for l := range s.Eq {
 				s.Eq[l] += sh
 			}
+			for c, k := range s.Pend {
+				if s.Pend[c] = k - sh; k < sh {
+					delete(s.Pend, c)
+				}
+			}
 		case ok && fi == m.fCur, m.isPtrT(x.Addr.Type()):
 			s.kill()
 		}
@@ -728,11 +758,55 @@ func (f *c11Flow) step(s *c11St, in ssa.Instruction) {
 		if _, isB := cc.Value.(*ssa.Builtin); isB {
 			return
 		}
-		if callee := cc.StaticCallee(); callee != nil && (!isOwn(callee) || (m.inClosure[callee] && !m.moves[callee])) {
+		callee := cc.StaticCallee()
+		if callee != nil && (!isOwn(callee) || (m.inClosure[callee] && !m.moves[callee])) {
 			return // foreign code never sees the parser object (discipline check)
 		}
 		s.kill()
+		// a helper of the closure running on the same object: what holds at its returns holds after the call
+		if call, isCall := x.(*ssa.Call); isCall && callee != nil && m.inClosure[callee] && f.recv != nil && len(cc.Args) > 0 && cc.Args[0] == f.recv && m.recvOf(callee) == ssa.Value(callee.Params[0]) {
+			if anyK, nilK, ok := m.summary(callee); ok {
+				s.K = anyK
+				if nilK > anyK {
+					s.Pend[call] = nilK
+				}
+			}
+		}
 	}
+}
+
+// summary of a method of the closure (entered with nothing known): anyK — cursor+anyK < len holds at every
+// return; nilK — it holds at every return whose last (error) result may be nil.
+func (m *c11Model) summary(fn *ssa.Function) (anyK, nilK int, ok bool) {
+	if r, done := m.sums[fn]; done {
+		return r[0], r[1], r[2] == 1
+	}
+	m.sums[fn] = [3]int{-1, -1, 0} // in progress (recursion): no facts
+	anyK, nilK = math.MaxInt32, math.MaxInt32
+	for in, st := range m.flow(fn, -1, nil, nil).at {
+		ret, isRet := in.(*ssa.Return)
+		if !isRet {
+			continue
+		}
+		anyK = min(anyK, st.K)
+		mayBeNil := true
+		if n := len(ret.Results); n > 0 {
+			if call, isCall := ret.Results[n-1].(*ssa.Call); isCall && c11NoPanicExtern[c11Name(call.Call.StaticCallee())] {
+				mayBeNil = false // errors.New / fmt.Errorf never return nil
+			}
+		}
+		if mayBeNil {
+			nilK = min(nilK, st.K)
+		}
+	}
+	if anyK == math.MaxInt32 {
+		anyK = -1
+	}
+	if nilK == math.MaxInt32 { // never returns nil: the nil branch is dead, but claim nothing beyond anyK
+		nilK = anyK
+	}
+	m.sums[fn] = [3]int{anyK, nilK, 1}
+	return anyK, nilK, true
 }
 
 // edge applies the facts of taking pred -> succ.
@@ -741,7 +815,47 @@ func (f *c11Flow) edge(s *c11St, pred, succ *ssa.BasicBlock) {
 	if !ok || pred.Succs[0] == pred.Succs[1] {
 		return
 	}
-	op, X, Y, ok := c11Cmp(condEdge{iff.Cond, pred.Succs[0] == succ, iff})
+	f.cond(s, iff.Cond, pred.Succs[0] == succ, pred)
+}
+
+// cond applies the facts of `v == branch` to s; blk (may be nil) is the block at whose end the test happens.
+func (f *c11Flow) cond(s *c11St, v ssa.Value, branch bool, blk *ssa.BasicBlock) {
+	core, pos := c11Strip(condEdge{Cond: v, True: branch})
+	// a bool helper of the closure that does not move the cursor (`fp.more()`), called in this very block with
+	// no cursor move after it: what its result implies holds here
+	if call, isCall := core.(*ssa.Call); isCall && blk != nil && call.Block() == blk {
+		callee := call.Call.StaticCallee()
+		if callee == nil || !f.m.inClosure[callee] || f.m.moves[callee] || f.recv == nil || len(call.Call.Args) == 0 || call.Call.Args[0] != f.recv || f.m.recvOf(callee) != ssa.Value(callee.Params[0]) {
+			return
+		}
+		for _, in := range blk.Instrs[instrIndex(call)+1:] {
+			probe := c11NewSt(0)
+			probe.Eq[nil] = 0
+			if f.step(&probe, in); probe.K != 0 || len(probe.Eq) == 0 { // moved or killed
+				return
+			}
+		}
+		if kT, kF, ok := f.m.boolSummary(callee); ok {
+			s.K = max(s.K, map[bool]int{true: kT, false: kF}[pos])
+		}
+		return
+	}
+	op, X, Y, ok := c11Cmp(condEdge{Cond: v, True: branch})
+	if ok && op == token.EQL && (c11IsNil(X) || c11IsNil(Y)) { // err == nil for the error result of a helper call
+		if c11IsNil(X) {
+			X = Y
+		}
+		call, isCall := X.(*ssa.Call)
+		if ex, isEx := X.(*ssa.Extract); isEx {
+			if call, isCall = ex.Tuple.(*ssa.Call); isCall && ex.Index != call.Type().(*types.Tuple).Len()-1 {
+				isCall = false
+			}
+		}
+		if k, pending := s.Pend[call]; isCall && pending && k > s.K {
+			s.K = k
+		}
+		return
+	}
 	if ok && f.isLen(X) {
 		X, Y, op = Y, X, c11Swap[op]
 	}
@@ -757,6 +871,48 @@ func (f *c11Flow) edge(s *c11St, pred, succ *ssa.BasicBlock) {
 	}
 }
 
+// boolSummary of a bool method of the closure that does not move the cursor (entered with nothing known):
+// cursor+kT < len holds whenever it returns true, cursor+kF < len whenever it returns false.
+func (m *c11Model) boolSummary(fn *ssa.Function) (kT, kF int, ok bool) {
+	if r, done := m.sums[fn]; done {
+		return r[0], r[1], r[2] == 1
+	}
+	m.sums[fn] = [3]int{-1, -1, 0}
+	res := fn.Signature.Results()
+	if res.Len() != 1 || !types.Identical(res.At(0).Type().Underlying(), types.Typ[types.Bool]) {
+		return -1, -1, false
+	}
+	kT, kF = math.MaxInt32, math.MaxInt32
+	f := m.flow(fn, -1, nil, nil)
+	for in, st := range f.at {
+		ret, isRet := in.(*ssa.Return)
+		if !isRet {
+			continue
+		}
+		for _, branch := range []bool{true, false} {
+			k, isK := ret.Results[0].(*ssa.Const)
+			if isK && k.Value != nil && constant.BoolVal(k.Value) != branch {
+				continue // this return never yields that value
+			}
+			s := st.clone()
+			f.cond(&s, ret.Results[0], branch, nil)
+			if branch {
+				kT = min(kT, s.K)
+			} else {
+				kF = min(kF, s.K)
+			}
+		}
+	}
+	if kT == math.MaxInt32 {
+		kT = -1
+	}
+	if kF == math.MaxInt32 {
+		kF = -1
+	}
+	m.sums[fn] = [3]int{kT, kF, 1}
+	return kT, kF, true
+}
+
 // flow computes the fixpoint. blocked: pred -> successor whose edge is known not to be taken; havoc: block
 // whose in-state is forced to "nothing known" (both used for the combinator's non-first iterations).
 func (m *c11Model) flow(fn *ssa.Function, entryK int, blocked map[*ssa.BasicBlock]*ssa.BasicBlock, havoc *ssa.BasicBlock) *c11Flow {
@@ -765,7 +921,7 @@ func (m *c11Model) flow(fn *ssa.Function, entryK int, blocked map[*ssa.BasicBloc
 	transfer := func(b *ssa.BasicBlock, s c11St, record bool) c11St {
 		for _, ins := range b.Instrs {
 			switch ins.(type) {
-			case *ssa.IndexAddr, *ssa.Store, ssa.CallInstruction:
+			case *ssa.IndexAddr, *ssa.Store, ssa.CallInstruction, *ssa.Return:
 				if record {
 					f.at[ins] = s.clone()
 				}
@@ -779,7 +935,7 @@ func (m *c11Model) flow(fn *ssa.Function, entryK int, blocked map[*ssa.BasicBloc
 		for _, b := range fn.Blocks {
 			var s c11St
 			if b.Index == 0 {
-				s = c11St{true, entryK, map[*ssa.UnOp]int{}}
+				s = c11NewSt(entryK)
 			}
 			for _, p := range b.Preds {
 				if out[p.Index].ok && blocked[p] != b {
@@ -789,7 +945,7 @@ func (m *c11Model) flow(fn *ssa.Function, entryK int, blocked map[*ssa.BasicBloc
 				}
 			}
 			if s.ok && b == havoc {
-				s = c11St{true, -1, map[*ssa.UnOp]int{}}
+				s = c11NewSt(-1)
 			}
 			if s.ok && (!c11Same(s, in[b.Index]) || !out[b.Index].ok) {
 				in[b.Index], out[b.Index], changed = s, transfer(b, s.clone(), false), true
@@ -997,7 +1153,12 @@ func (m *c11Model) enumerate(fn *ssa.Function, f *c11Flow) (obs []c11Ob, derefs 
 				if _, isPtr := x.X.Type().Underlying().(*types.Pointer); isPtr {
 					deref(in, x.X)
 				}
-				if x.Low != nil || x.High != nil || x.Max != nil {
+				lo, loK := c11Int(x.Low)
+				hi, hiK := c11Int(x.High)
+				_, isSl := x.X.Type().Underlying().(*types.Slice)
+				if isSl && x.Max == nil && hiK && hi == 0 && (x.Low == nil || (loK && lo == 0)) {
+					// s[:0] of a slice cannot panic
+				} else if x.Low != nil || x.High != nil || x.Max != nil {
 					add("slice-expr", in, false, "slice expression with bounds is not modelled")
 				}
 			case *ssa.BinOp:
@@ -1036,7 +1197,7 @@ func (m *c11Model) enumerate(fn *ssa.Function, f *c11Flow) (obs []c11Ob, derefs 
 				} else if callee := cc.StaticCallee(); callee != nil && m.inClosure[callee] {
 					// analysed itself
 				} else if callee != nil {
-					name := externName(fnObj(callee))
+					name := c11Name(callee)
 					add("extern:"+name, in, c11NoPanicExtern[name], "call of %s (allow-list: errors.New, fmt.Errorf)", name)
 				} else if x == m.dyn {
 					add("combinator-call", in, true, "indirect call of an element of the parser list: targets are exactly the %d bound field parsers built in %s, all non-nil", len(m.parsers), fnName(m.root))
@@ -1251,7 +1412,7 @@ func c11R1(c *Ctx, m *c11Model) {
 		c.OkTrivial(rule, fmt.Sprintf("%s#entry@%d", fnName(fn), i), fn.Pos(), "field parser %d: %s", i, role)
 	}
 	// (5) enumerate and discharge
-	counts := map[string]int{}
+	counts, readers := map[string]int{}, map[*ssa.Function]bool{}
 	derefs := 0
 	for _, fn := range m.fns {
 		f := m.flows[fn]
@@ -1266,7 +1427,7 @@ func c11R1(c *Ctx, m *c11Model) {
 			ord[o.kind]++
 			cat := o.kind
 			if strings.HasPrefix(cat, m.st.Field(m.fBuf).Name()+"[") {
-				cat = "byte-index"
+				cat, readers[fn] = "byte-index", true
 			}
 			counts[cat]++
 			verdict(o.ok, fmt.Sprintf("%s#%s@%d", fnName(fn), o.kind, ord[o.kind]), o.in.Pos(), o.detail, "cannot exclude a panic: "+o.detail)
@@ -1283,10 +1444,20 @@ func c11R1(c *Ctx, m *c11Model) {
 		}
 	}
 	c.Ok(rule, "closure#derefs", m.root.Pos(), "%d pointer dereferences / field selections in %d functions are all on the parser object, a fresh allocation, a package-level variable, or the caller's *Board (precondition)", derefs, len(m.fns))
-	c.Floor(rule+".byte-index", counts["byte-index"], 21, "indexes of the parser buffer")
-	c.Floor(rule+".array-index", counts["array-index"], 5, "variable indexes of fixed-size arrays")
-	c.Floor(rule+".shift", counts["shift"], 1, "shifts by a signed variable count")
-	c.Floor(rule+".cursor-store", counts["cursor-store"], 8, "monotone cursor increments")
+	// floors guard against vacuity only (today: 21 byte indexes, 5 array indexes, 1 shift, 8 cursor stores): every
+	// field parser must reach a read of the buffer, and somebody must move the cursor and index the board arrays
+	reading := 0
+	for _, fn := range m.parsers {
+		for _, g := range m.staticClosure(fn) {
+			if readers[g] {
+				reading++
+				break
+			}
+		}
+	}
+	c.Floor(rule+".byte-index", reading, len(m.parsers), "field parsers reaching a checked index of the parser buffer")
+	c.Floor(rule+".array-index", counts["array-index"]+counts["byte-index"], 7, "checked byte and array indexes")
+	c.Floor(rule+".cursor-store", counts["cursor-store"], 1, "monotone cursor increments")
 	c.Floor(rule+".parsers", len(m.parsers), 6, "field parsers handed to the combinator")
 }
 
@@ -1312,6 +1483,100 @@ func c11NilTest(ce condEdge, v ssa.Value) bool {
 	return ok && op == token.EQL && ((X == v && c11IsNil(Y)) || (Y == v && c11IsNil(X)))
 }
 
+// c11Guard decides acceptance guards by path simulation (boolsim): atoms "errnil" (error result of call is
+// nil) and "invalid" (InvalidPieceCount() on the board in question is true).
+type c11Guard struct {
+	fn       *ssa.Function
+	classify atomClassifier
+	opaque   bool // some branch tests the parse result in a way the classifier does not understand
+}
+
+func c11Guards(fn *ssa.Function, call *ssa.Call, sameBoard func(ssa.Value) bool, invalid string) *c11Guard {
+	isErr := func(v ssa.Value) bool {
+		ex, isEx := v.(*ssa.Extract)
+		return v == ssa.Value(call) && call.Type().String() == "error" || (isEx && ex.Tuple == ssa.Value(call) && ex.Type().String() == "error")
+	}
+	g := &c11Guard{fn: fn}
+	g.classify = func(v ssa.Value) (string, bool, bool) {
+		switch x := v.(type) {
+		case *ssa.BinOp:
+			if (x.Op == token.EQL || x.Op == token.NEQ) && ((isErr(x.X) && c11IsNil(x.Y)) || (isErr(x.Y) && c11IsNil(x.X))) {
+				return "errnil", x.Op == token.NEQ, true
+			}
+		case *ssa.Call:
+			if isCallValueTo(x, invalid) && len(x.Call.Args) == 1 && sameBoard(x.Call.Args[0]) {
+				return "invalid", false, true
+			}
+		}
+		return "", false, false
+	}
+	// opaque: a condition (not an atom, not built from atoms by ! and phis) that depends on the call's results
+	allInstrs(fn, func(in ssa.Instruction) {
+		iff, ok := in.(*ssa.If)
+		if !ok {
+			return
+		}
+		var leafs func(v ssa.Value, depth int)
+		leafs = func(v ssa.Value, depth int) {
+			if _, _, ok := g.classify(v); ok || depth > 6 {
+				return
+			}
+			switch x := v.(type) {
+			case *ssa.UnOp:
+				if x.Op == token.NOT {
+					leafs(x.X, depth+1)
+					return
+				}
+			case *ssa.Phi:
+				if isBoolType(x) {
+					for _, e := range x.Edges {
+						leafs(e, depth+1)
+					}
+					return
+				}
+			case *ssa.Const:
+				return
+			}
+			for w := range backSlice(v, sliceOpts{ThroughCalls: true, ThroughLoads: true}) {
+				if ex, isEx := w.(*ssa.Extract); w == ssa.Value(call) || (isEx && ex.Tuple == ssa.Value(call)) {
+					g.opaque = true
+				}
+			}
+		}
+		leafs(iff.Cond, 0)
+	})
+	return g
+}
+
+// report: target must not be executable on a path consistent with atom == bad.
+func (g *c11Guard) report(c *Ctx, rule, key string, target ssa.Instruction, atom string, bad bool, okMsg, badMsg string) {
+	can, complete := canExecuteUnder(g.fn, g.classify, nil, func(in ssa.Instruction) bool { return in == target }, map[string]bool{atom: bad}, 2)
+	switch {
+	case !can && complete:
+		c.Ok(rule, key, target.Pos(), "%s", okMsg)
+	case g.opaque || !complete:
+		c.Undec(rule, key, target.Pos(), "%s — but %s tests the parse result through a helper or expression this rule does not interpret, so the guard may be there in a form it cannot see", badMsg, fnName(g.fn))
+	default:
+		c.Fail(rule, key, target.Pos(), "%s", badMsg)
+	}
+}
+
+// c11CallsOwnWith: fn passes v to a chess-3 function other than the FEN entry points.
+func c11CallsOwnWith(fn *ssa.Function, v ssa.Value) bool {
+	found := false
+	allInstrs(fn, func(in ssa.Instruction) {
+		if ci, ok := in.(ssa.CallInstruction); ok {
+			callee := ci.Common().StaticCallee()
+			for _, a := range ci.Common().Args {
+				if a == v && callee != nil && isOwn(callee) && !strings.HasSuffix(c11Name(callee), "board.ParseFEN") {
+					found = true
+				}
+			}
+		}
+	})
+	return found
+}
+
 func c11R2(c *Ctx, p *Prog) {
 	const rule = "C11.R2"
 	const fromFEN, invalid, field = "board.FromFEN", "board.(Board).InvalidPieceCount", "uci.Driver.board"
@@ -1321,7 +1586,7 @@ func c11R2(c *Ctx, p *Prog) {
 			return
 		}
 	}
-	stores, guards := 0, 0
+	stores := 0
 	ws := p.writersOf(field)
 	for _, w := range sortedKeys(ws) {
 		for _, s := range ws[w] {
@@ -1342,53 +1607,132 @@ func c11R2(c *Ctx, p *Prog) {
 				continue // value does not come from a FromFEN call in this function
 			}
 			stores++
-			okErr, okCnt := false, false
-			for _, ce := range c11EdgeConds(st.Block()) {
-				for _, r := range *call.Referrers() {
-					if ex, ok := r.(*ssa.Extract); ok && ex.Index == 1 && c11NilTest(ce, ex) {
-						okErr = true
+			// "under which conditions can the store execute": on no path may err != nil or InvalidPieceCount() hold
+			sameBoard := func(v ssa.Value) bool {
+				if ld, ok := c11Load(v); ok {
+					v = ld.X
+				}
+				return v == st.Val
+			}
+			g := c11Guards(st.Parent(), call, sameBoard, invalid)
+			g.report(c, rule, w+"#install:err==nil", st, "errnil", false,
+				fmt.Sprintf("the store of the FromFEN result into %s executes only on paths where err == nil was established", field),
+				fmt.Sprintf("the store of the FromFEN result into %s can execute on a path where the error of that FromFEN call is non-nil or untested: a rejected FEN replaces the current position", field))
+			g.report(c, rule, w+"#install:piece-count", st, "invalid", true,
+				fmt.Sprintf("the store of the FromFEN result into %s executes only on paths where InvalidPieceCount() on that board was false", field),
+				fmt.Sprintf("the store of the FromFEN result into %s can execute on a path where InvalidPieceCount() on that board is true or untested: a position with impossible material replaces the current one", field))
+		}
+	}
+	// parsing in place into the live board (ParseFEN(d.board, ..)): every way out of the function after the call
+	// must pass the accepting edges (err == nil, then InvalidPieceCount() false) or a restore of a copy taken before
+	inplace := 0
+	fromLive := func(v ssa.Value) bool { // v is (derived from) a load of Driver.board
+		return sliceHas(backSlice(v, sliceOpts{ThroughLoads: true}), func(w ssa.Value) bool {
+			fr, ok := asFieldAddr(w)
+			_, isFA := w.(*ssa.FieldAddr)
+			return ok && isFA && fr.QName() == field
+		})
+	}
+	for _, fn := range p.OwnFuncs() {
+		for _, ci := range callsIn(fn, "board.ParseFEN") {
+			call, ok := ci.(*ssa.Call)
+			if !ok || !fromLive(call.Call.Args[0]) {
+				continue
+			}
+			inplace++
+			accepted := func(b *ssa.BasicBlock) bool {
+				okErr, okCnt := false, false
+				for _, ce := range c11EdgeConds(b) {
+					okErr = okErr || c11NilTest(ce, call)
+					if cond, pos := c11Strip(ce); !pos && isCallValueTo(cond, invalid) && fromLive(cond.(*ssa.Call).Call.Args[0]) {
+						okCnt = true
 					}
 				}
-				if cond, pos := c11Strip(ce); !pos && isCallValueTo(cond, invalid) {
-					recv := cond.(*ssa.Call).Call.Args[0] // the stored board value itself or a load of it
-					if ld, ok := c11Load(recv); ok {
-						recv = ld.X
+				return okErr && okCnt
+			}
+			stop := func(in ssa.Instruction) bool {
+				if st, ok := in.(*ssa.Store); ok { // *d.board = saved, saved loaded before the call
+					ld, isLd := c11Load(st.Val)
+					if _, isFA := st.Addr.(*ssa.FieldAddr); !isFA && fromLive(st.Addr) && isLd && fromLive(ld.X) && instrDominates(ld, call) {
+						return true
 					}
-					okCnt = okCnt || recv == st.Val
 				}
+				return accepted(in.Block())
 			}
-			if c.Check(okErr, rule, w+"#install:err==nil", st.Pos(), "store of the FromFEN result into %s is dominated by the err == nil edge of that FromFEN call (else a rejected FEN replaces the current position)", field) {
-				guards++
-			}
-			if c.Check(okCnt, rule, w+"#install:piece-count", st.Pos(), "store of the FromFEN result into %s is dominated by the false edge of InvalidPieceCount() on the same board (else a position with impossible material replaces the current one)", field) {
-				guards++
+			leak, path := reachAvoiding(call, nil, stop)
+			key := fnName(fn) + "#in-place"
+			if g := c11Guards(fn, call, fromLive, invalid); leak && g.opaque {
+				c.Undec(rule, key, call.Pos(), "board.ParseFEN parses into the live %s and %s tests its result in a way this rule does not interpret: cannot decide whether every rejection restores the position", field, fnName(fn))
+			} else if leak {
+				c.Fail(rule, key, call.Pos(), "board.ParseFEN parses into the live %s; a way out of %s (blocks %v) passes neither both acceptance edges (err == nil, InvalidPieceCount() false) nor a restore of a copy taken before the call: a rejected FEN replaces the current position", field, fnName(fn), path)
+			} else {
+				c.Ok(rule, key, call.Pos(), "in-place parse into %s: every way out passes both acceptance edges or restores the saved copy", field)
 			}
 		}
 	}
-	c.Floor(rule+".stores", stores, 1, "stores of a FromFEN result into "+field)
-	c.Floor(rule+".guards", guards, 2, "acceptance guards dominating them")
+	c.Floor(rule+".installs", stores+inplace, 1, "installs of a parsed FEN into "+field+" (store of a FromFEN result, or in-place ParseFEN)")
 	// FromFEN hands out a board only after ParseFEN accepted and after ResetHash
 	fn := p.Func(fromFEN)
 	rets := 0
 	allInstrs(fn, func(in ssa.Instruction) {
 		ret, ok := in.(*ssa.Return)
-		if !ok || len(ret.Results) != 2 || c11IsNil(ret.Results[0]) {
+		if !ok || len(ret.Results) != 2 || c11IsNil(returnedValue(ret, 0)) {
 			return
 		}
 		rets++
-		b := ret.Results[0]
-		okParse, okHash := false, false
-		for _, ce := range c11EdgeConds(ret.Block()) {
-			for _, pc := range callsIn(fn, "board.ParseFEN") {
-				v, isCall := pc.(*ssa.Call)
-				okParse = okParse || (isCall && c11NilTest(ce, v) && v.Call.Args[0] == b)
+		// the returned board(s): directly, or the non-nil edges of a phi merging the returns (named results)
+		type pick struct {
+			b  ssa.Value
+			at ssa.Instruction // executing this instruction means this board is what gets returned
+		}
+		picks := []pick{{returnedValue(ret, 0), ret}}
+		if ph, isPhi := picks[0].b.(*ssa.Phi); isPhi {
+			picks = nil
+			for i, e := range ph.Edges {
+				pred := ph.Block().Preds[i]
+				if _, isPhi2 := e.(*ssa.Phi); isPhi2 || (!c11IsNil(e) && len(pred.Succs) != 1) || ph.Block() != ret.Block() {
+					c.Undec(rule, fromFEN+"#return:shape", ret.Pos(), "the returned board is merged from several places in a way this rule does not follow")
+					return
+				}
+				if !c11IsNil(e) {
+					picks = append(picks, pick{e, pred.Instrs[len(pred.Instrs)-1]})
+				}
 			}
 		}
-		for _, hc := range callsIn(fn, "board.(*Board).ResetHash") {
-			okHash = okHash || (hc.Common().Args[0] == b && instrDominates(hc.(ssa.Instruction), ret))
+		for i, pk := range picks {
+			b, sfx := pk.b, ""
+			if i > 0 {
+				sfx = fmt.Sprintf("@%d", i+1)
+			}
+			var parse *ssa.Call
+			for _, pc := range callsIn(fn, "board.ParseFEN") {
+				if v, isCall := pc.(*ssa.Call); isCall && v.Call.Args[0] == b {
+					parse = v
+				}
+			}
+			if parse == nil {
+				c.Undec(rule, fromFEN+"#return:shape"+sfx, ret.Pos(), "the returned board is not one that a board.ParseFEN call in FromFEN filled (helper?): rule cannot decide")
+				continue
+			}
+			g := c11Guards(fn, parse, func(ssa.Value) bool { return false }, invalid)
+			g.report(c, rule, fromFEN+"#return:parse-accepted"+sfx, pk.at, "errnil", false,
+				"FromFEN returns a board only on paths where ParseFEN on that board returned nil",
+				"FromFEN can return a board on a path where ParseFEN's error is non-nil or untested")
+			isReset := func(in ssa.Instruction) bool {
+				return isCallTo(in, "board.(*Board).ResetHash") && in.(ssa.CallInstruction).Common().Args[0] == b
+			}
+			// (ResetHash may also sit in a callee that always runs it: followed by mustExecuteBefore)
+			direct := mustExecuteBefore(p, fn, pk.at, func(in ssa.Instruction) bool { return isCallTo(in, "board.(*Board).ResetHash") }, 2)
+			leak, _ := reachAvoiding(parse, pk.at, isReset)
+			switch {
+			case !leak || direct:
+				c.Ok(rule, fromFEN+"#return:hash-reset"+sfx, ret.Pos(), "FromFEN returns a board only after ResetHash on it (ParseFEN omits the hash; moves on a hash-less board crash)")
+			case len(callsIn(fn, "board.(*Board).ResetHash")) == 0 && c11CallsOwnWith(fn, b):
+				c.Undec(rule, fromFEN+"#return:hash-reset"+sfx, ret.Pos(), "no ResetHash on the returned board in FromFEN itself, but the board is handed to another chess-3 function that may do it")
+			default:
+				c.Fail(rule, fromFEN+"#return:hash-reset"+sfx, ret.Pos(), "FromFEN can return the board without ResetHash having run on it (ParseFEN omits the hash; moves on a hash-less board crash)")
+			}
 		}
-		c.Check(okParse, rule, fromFEN+"#return:parse-accepted", ret.Pos(), "FromFEN returns a board only on the edge where ParseFEN on that board returned nil")
-		c.Check(okHash, rule, fromFEN+"#return:hash-reset", ret.Pos(), "FromFEN returns a board only after ResetHash on it (ParseFEN omits the hash; moves on a hash-less board crash)")
 	})
 	c.Floor(rule+".fromfen", rets, 1, "non-nil returns of FromFEN")
 }
@@ -1454,51 +1798,78 @@ func c11R4Epd(c *Ctx, p *Prog, rule string) {
 				atLeast = max(atLeast, k+1)
 			}
 		}
-		good := sl.Max == nil
-		for _, bnd := range []ssa.Value{sl.Low, sl.High} {
-			if bo, ok := bnd.(*ssa.BinOp); bnd != nil {
-				k, isK := int64(0), false
-				if ok {
-					k, isK = c11Int(bo.Y)
-				}
-				good = good && ok && bo.Op == token.SUB && isLen(bo.X) && isK && k >= 0 && k <= atLeast
+		good, known := true, sl.Max == nil
+		for _, bnd := range []ssa.Value{sl.Low, sl.High} { // len(line)-k or a constant k: needs len(line) >= k
+			if bnd == nil {
+				continue
 			}
+			k, isK := c11Int(bnd)
+			if bo, ok := bnd.(*ssa.BinOp); ok && bo.Op == token.SUB && isLen(bo.X) {
+				k, isK = c11Int(bo.Y)
+			}
+			known = known && isK
+			good = good && isK && k >= 0 && k <= atLeast
 		}
 		key := fmt.Sprintf("%s#slice@%d", spec, nsl)
-		if good {
-			c.Ok(rule, key, sl.Pos(), "bounds are len(line)-k with 0 <= k <= %d, and len(line) >= %d holds on every path here", atLeast, atLeast)
+		if !known {
+			c.Undec(rule, key, sl.Pos(), "bounds of this slice of the input line are neither constants nor len(line)-constant: rule cannot decide")
+		} else if good {
+			c.Ok(rule, key, sl.Pos(), "bounds are k or len(line)-k with 0 <= k <= %d, and len(line) >= %d holds on every path here", atLeast, atLeast)
 		} else {
 			c.Fail(rule, key, sl.Pos(), "slice of the input line is not covered by a dominating length test (len(line) >= %d is all that holds): short lines crash the tuner", atLeast)
 		}
 	})
-	c.Floor(rule+".slices", nsl, 4, "slice expressions on the epd line")
-	// (b) the board is handed only to board.ParseFEN
-	calls, okOnly := 0, true
+	c.Floor(rule+".slices", nsl, 1, "slice expressions on the epd line") // today 4; one is needed to cut the FEN out of the line
+	// (b) the board is filled by board.ParseFEN and not written here
+	var parse *ssa.Call
+	wrote, other := false, false
 	for _, r := range *brd.Referrers() {
-		call, isCall := r.(*ssa.Call)
-		if _, isDbg := r.(*ssa.DebugRef); isDbg {
-		} else if isCall && objName(calleeObj(call)) == "board.ParseFEN" && call.Call.Args[0] == ssa.Value(brd) {
-			calls++
-		} else {
-			okOnly = false
+		switch x := r.(type) {
+		case *ssa.DebugRef:
+		case *ssa.Call:
+			if objName(calleeObj(x)) == "board.ParseFEN" && x.Call.Args[0] == ssa.Value(brd) {
+				parse = x
+			} else {
+				other = true
+			}
+		case *ssa.FieldAddr, *ssa.Store:
+			for _, r2 := range *r.(ssa.Value).Referrers() {
+				_, isSt := r2.(*ssa.Store)
+				wrote = wrote || isSt
+			}
+			if st, isSt := x.(*ssa.Store); isSt {
+				wrote = wrote || st.Addr == ssa.Value(brd)
+			}
+		default:
+			other = true
 		}
 	}
-	c.Check(okOnly && calls >= 1, rule, spec+"#only-ParseFEN", fn.Pos(), "the *board.Board out-parameter flows only into board.ParseFEN (%d call): no second FEN reader fills it", calls)
+	switch {
+	case wrote:
+		c.Fail(rule, spec+"#only-ParseFEN", fn.Pos(), "epd.Parse stores into the *board.Board itself: positions must come from board.ParseFEN only")
+	case parse == nil || other:
+		c.Undec(rule, spec+"#only-ParseFEN", fn.Pos(), "the *board.Board out-parameter is handed to something other than a direct board.ParseFEN call (helper?): rule cannot decide who fills it")
+		return
+	default:
+		c.Ok(rule, spec+"#only-ParseFEN", fn.Pos(), "the *board.Board out-parameter flows only into board.ParseFEN: no second FEN reader fills it")
+	}
 	// (c) success is reported only after ParseFEN accepted
+	g := c11Guards(fn, parse, func(ssa.Value) bool { return false }, "-")
 	allInstrs(fn, func(in ssa.Instruction) {
 		ret, ok := in.(*ssa.Return)
-		if !ok || len(ret.Results) != 1 || !c11IsNil(ret.Results[0]) {
-			return
+		if ok && len(ret.Results) == 1 && c11IsNil(returnedValue(ret, 0)) {
+			g.report(c, rule, spec+"#nil-only-after-accept", ret, "errnil", false,
+				"Parse returns nil only on paths where board.ParseFEN returned nil",
+				"Parse can return nil on a path where board.ParseFEN's error is non-nil or untested: a rejected FEN is reported as parsed")
 		}
-		good := false
-		for _, ce := range c11EdgeConds(ret.Block()) {
-			for _, pc := range callsIn(fn, "board.ParseFEN") {
-				v, isCall := pc.(*ssa.Call)
-				good = good || (isCall && c11NilTest(ce, v))
-			}
-		}
-		c.Check(good, rule, spec+"#nil-only-after-accept", ret.Pos(), "Parse returns nil only on the edge where board.ParseFEN returned nil")
 	})
+}
+
+func c11Lhs0(as *ast.AssignStmt) ast.Expr {
+	if as == nil || len(as.Lhs) == 0 {
+		return nil
+	}
+	return as.Lhs[0]
 }
 
 func c11R4Extract(c *Ctx, p *Prog, rule string) {
@@ -1533,10 +1904,11 @@ func c11R4Extract(c *Ctx, p *Prog, rule string) {
 			})
 			for _, call := range callsInNode(info, file, "board.ParseFEN") {
 				n++
-				// err := ParseFEN(..) as the init of, or directly followed by, `if err != nil { ...; return/continue/break }`
+				// err := ParseFEN(..) as the init of, or directly followed by, a statement that tests err != nil (if, if with
+				// an || chain, or a case of a tagless switch) and leaves the iteration/function in that branch
 				path := enclosingPath(file, call)
 				var as *ast.AssignStmt
-				var iff *ast.IfStmt
+				var next ast.Stmt
 				for i := len(path) - 1; i > 0 && as == nil; i-- {
 					a, ok := path[i].(*ast.AssignStmt)
 					if !ok || len(a.Rhs) != 1 || a.Rhs[0] != ast.Expr(call) || len(a.Lhs) != 1 {
@@ -1544,31 +1916,61 @@ func c11R4Extract(c *Ctx, p *Prog, rule string) {
 					}
 					as = a
 					if f, ok := path[i-1].(*ast.IfStmt); ok && f.Init == ast.Stmt(a) {
-						iff = f
+						next = f
+					} else if sw, ok := path[i-1].(*ast.SwitchStmt); ok && sw.Init == ast.Stmt(a) {
+						next = sw
 					} else if blk, ok := path[i-1].(*ast.BlockStmt); ok {
 						for j, s := range blk.List[:len(blk.List)-1] {
 							if s == ast.Stmt(a) {
-								iff, _ = blk.List[j+1].(*ast.IfStmt)
+								next = blk.List[j+1]
 							}
 						}
 					}
 				}
 				good := false
-				if as != nil && iff != nil && len(iff.Body.List) > 0 {
-					id, _ := as.Lhs[0].(*ast.Ident)
-					be, _ := ast.Unparen(iff.Cond).(*ast.BinaryExpr)
-					if id != nil && id.Name != "_" && be != nil && be.Op == token.NEQ {
-						x, isID := ast.Unparen(be.X).(*ast.Ident)
-						y, isNil := ast.Unparen(be.Y).(*ast.Ident)
-						last := iff.Body.List[len(iff.Body.List)-1]
-						_, isRet := last.(*ast.ReturnStmt)
-						_, isBr := last.(*ast.BranchStmt)
-						good = isID && isNil && info.ObjectOf(id) != nil && info.ObjectOf(x) == info.ObjectOf(id) && y.Name == "nil" && (isRet || isBr)
+				if id, _ := c11Lhs0(as).(*ast.Ident); id != nil && id.Name != "_" && next != nil && info.ObjectOf(id) != nil {
+					var tests func(e ast.Expr) bool // e is (an || chain containing) err != nil
+					tests = func(e ast.Expr) bool {
+						be, ok := ast.Unparen(e).(*ast.BinaryExpr)
+						if !ok {
+							return false
+						}
+						if be.Op == token.LOR {
+							return tests(be.X) || tests(be.Y)
+						}
+						x, y := ast.Unparen(be.X), ast.Unparen(be.Y)
+						if yi, ok := x.(*ast.Ident); ok && yi.Name == "nil" {
+							x, y = y, x
+						}
+						xi, isID := x.(*ast.Ident)
+						yi, isNil := y.(*ast.Ident)
+						return be.Op == token.NEQ && isID && isNil && yi.Name == "nil" && info.ObjectOf(xi) == info.ObjectOf(id)
+					}
+					leaves := func(body []ast.Stmt) bool {
+						if len(body) == 0 {
+							return false
+						}
+						_, isRet := body[len(body)-1].(*ast.ReturnStmt)
+						_, isBr := body[len(body)-1].(*ast.BranchStmt)
+						return isRet || isBr
+					}
+					switch x := next.(type) {
+					case *ast.IfStmt:
+						good = tests(x.Cond) && leaves(x.Body.List)
+					case *ast.SwitchStmt:
+						for _, cl := range x.Body.List {
+							cc := cl.(*ast.CaseClause)
+							for _, e := range cc.List {
+								good = good || (x.Tag == nil && tests(e) && leaves(cc.Body))
+							}
+						}
 					}
 				}
 				key := fmt.Sprintf("%s#ParseFEN@%d", name, n)
 				if good {
 					c.Ok(rule, key, call.Pos(), "error of board.ParseFEN is tested with != nil and the failing branch leaves the iteration/function: a rejected FEN is never used")
+				} else if id, _ := c11Lhs0(as).(*ast.Ident); as != nil && (id == nil || id.Name != "_") {
+					c.Undec(rule, key, call.Pos(), "the error result of board.ParseFEN is kept, but not tested in the shape this AST-level rule knows (err != nil followed by return/continue)")
 				} else {
 					c.Fail(rule, key, call.Pos(), "the error result of board.ParseFEN is not tested (err != nil followed by return/continue): a half-parsed board would be used")
 				}
@@ -1756,9 +2158,13 @@ func (m *c11Model) walk(fn *ssa.Function, env c11Env) (evs []c11Ev, fuzzy bool) 
 				for w := range backSlice(x.Cond, sliceOpts{}) {
 					call, isCall := w.(*ssa.Call)
 					ld, isLd := c11Load(w)
+					if _, bound := env[w]; bound {
+						continue
+					}
 					if isCall {
 						_, isB := call.Call.Value.(*ssa.Builtin)
-						fuzzy = fuzzy || !isB
+						h := m.helperOn(call, recv)
+						fuzzy = fuzzy || !(isB || (h != nil && !m.readsBuffer(h)))
 					} else if isLd {
 						_, isIA := ld.X.(*ssa.IndexAddr)
 						fuzzy = fuzzy || isIA
@@ -1779,6 +2185,12 @@ func (m *c11Model) tokenEnv(fn *ssa.Function, bytes ...int64) c11Env {
 	env := c11Env{}
 	f, recv := m.flows[fn], m.recvOf(fn)
 	allInstrs(fn, func(in ssa.Instruction) {
+		if call, isCall := in.(*ssa.Call); isCall && f != nil { // `fp.peek()`: a helper returning buf[cursor+k]
+			if off, ok := m.peekOffset(call, f.recv); ok && off < len(bytes) {
+				env[call] = bytes[off]
+			}
+			return
+		}
 		ld, ok := c11Load(c11AsValue(in))
 		if !ok {
 			return
@@ -1792,6 +2204,56 @@ func (m *c11Model) tokenEnv(fn *ssa.Function, bytes ...int64) c11Env {
 		}
 	})
 	return env
+}
+
+// helperOn: call invokes a method of the closure on the same parser object, and that method does not move the cursor.
+func (m *c11Model) helperOn(call *ssa.Call, recv ssa.Value) *ssa.Function {
+	callee := call.Call.StaticCallee()
+	if callee == nil || !m.inClosure[callee] || m.moves[callee] || recv == nil || len(call.Call.Args) == 0 || call.Call.Args[0] != recv || len(callee.Params) == 0 || m.recvOf(callee) != ssa.Value(callee.Params[0]) {
+		return nil
+	}
+	return callee
+}
+
+// peekOffset: call is such a helper whose single return yields the byte buf[cursor+k]; returns k.
+func (m *c11Model) peekOffset(call *ssa.Call, recv ssa.Value) (int, bool) {
+	callee := m.helperOn(call, recv)
+	if callee == nil {
+		return 0, false
+	}
+	var rets []*ssa.Return
+	allInstrs(callee, func(in ssa.Instruction) {
+		if r, ok := in.(*ssa.Return); ok {
+			rets = append(rets, r)
+		}
+	})
+	if len(rets) != 1 || len(rets[0].Results) != 1 {
+		return 0, false
+	}
+	ld, ok := c11Load(rets[0].Results[0])
+	if !ok {
+		return 0, false
+	}
+	ia, ok := ld.X.(*ssa.IndexAddr)
+	cf := m.flows[callee]
+	if !ok || cf == nil || !m.loadOf(ia.X, cf.recv, m.fBuf) {
+		return 0, false
+	}
+	off, ok := cf.offset(ia.Index, cf.at[ia])
+	return off, ok && off >= 0
+}
+
+// readsBuffer: fn or a function of the closure it calls statically indexes the parser buffer.
+func (m *c11Model) readsBuffer(fn *ssa.Function) bool {
+	reads := false
+	for _, g := range m.staticClosure(fn) {
+		allInstrs(g, func(in ssa.Instruction) {
+			if ia, ok := in.(*ssa.IndexAddr); ok && m.loadOf(ia.X, nil, m.fBuf) {
+				reads = true
+			}
+		})
+	}
+	return reads
 }
 
 // c11Emit is one piece of text the printer emits.
@@ -1827,68 +2289,99 @@ func (m *c11Model) printerModel(fn *ssa.Function) (ems []c11Emit, bad string) {
 		}
 		return out
 	}
-	allInstrs(fn, func(in ssa.Instruction) {
-		call, ok := in.(*ssa.Call)
-		if !ok || call.Call.StaticCallee() == nil || bad != "" {
-			return
-		}
-		name, args := externName(fnObj(call.Call.StaticCallee())), call.Call.Args
-		add := func(e c11Emit) {
-			e.in, e.fields = in, fieldsOf(e.val, in.Block())
-			ems = append(ems, e)
-		}
-		switch name {
-		case "strings.Builder.WriteString":
-			inner, isCall := args[1].(*ssa.Call)
-			if s, ok := c11Str(args[1]); ok {
-				add(c11Emit{kind: "lit", lit: s})
-			} else if isCall && inner.Call.StaticCallee() != nil && len(inner.Call.Args) == 1 {
-				e := c11Emit{kind: "call", val: inner.Call.Args[0], callee: inner.Call.StaticCallee()}
-				if externName(fnObj(e.callee)) == "strconv.Itoa" {
-					e.kind = "dec"
-				}
-				add(e)
-			} else {
-				add(c11Emit{kind: "?", val: args[1]})
+	// scan lists the output calls of g; those of local closures and chess-3 helpers g calls are attributed to
+	// the call site in the printer itself (site), which is what ordering and guards are judged by.
+	var scan func(g *ssa.Function, site ssa.Instruction, depth int)
+	scan = func(g *ssa.Function, site ssa.Instruction, depth int) {
+		allInstrs(g, func(in ssa.Instruction) {
+			call, ok := in.(*ssa.Call)
+			if !ok || call.Call.StaticCallee() == nil || bad != "" {
+				return
 			}
-		case "strings.Builder.WriteByte", "strings.Builder.WriteRune":
-			add(c11Emit{kind: "byte", val: args[1]})
-		case "fmt.Fprintf":
-			format, ok := c11Str(args[1])
-			va := c11Varargs(args[2])
-			for i, n := 0, 0; i < len(format) && ok; i, n = i+1, n+1 {
-				if j := strings.IndexByte(format[i:], '%'); j != 0 { // literal run
-					if j < 0 {
-						j = len(format) - i
+			at := site
+			if at == nil {
+				at = in
+			}
+			callee := call.Call.StaticCallee()
+			name, args := c11Name(callee), call.Call.Args
+			add := func(e c11Emit) {
+				e.in, e.fields = at, fieldsOf(e.val, at.Block())
+				if site != nil { // also what the helper's own conditions and operands depend on
+					for f := range fieldsOf(e.val, in.Block()) {
+						e.fields[f] = true
 					}
-					add(c11Emit{kind: "lit", lit: format[i : i+j], seq: n})
-					i += j - 1
-					continue
+					e.seq = len(ems)
 				}
-				i++
-				kind := ""
-				if i < len(format) {
-					kind = map[byte]string{'c': "byte", 'd': "dec"}[format[i]]
+				ems = append(ems, e)
+			}
+			if isOwn(callee) && callee.Blocks != nil && depth < 3 && (callee.Parent() != nil || c11TakesBuilder(callee)) {
+				scan(callee, at, depth+1)
+				return
+			}
+			switch name {
+			case "strings.Builder.WriteString":
+				inner, isCall := args[1].(*ssa.Call)
+				if s, ok := c11Str(args[1]); ok {
+					add(c11Emit{kind: "lit", lit: s})
+				} else if isCall && inner.Call.StaticCallee() != nil && len(inner.Call.Args) == 1 {
+					e := c11Emit{kind: "call", val: inner.Call.Args[0], callee: inner.Call.StaticCallee()}
+					if c11Name(e.callee) == "strconv.Itoa" {
+						e.kind = "dec"
+					}
+					add(e)
+				} else {
+					add(c11Emit{kind: "?", val: args[1]})
 				}
-				mi, isMI := ssa.Value(nil), false
-				if len(va) > 0 {
-					mi, isMI = va[0].(*ssa.MakeInterface)
+			case "strings.Builder.WriteByte", "strings.Builder.WriteRune":
+				add(c11Emit{kind: "byte", val: args[1]})
+			case "fmt.Fprintf":
+				format, ok := c11Str(args[1])
+				va := c11Varargs(args[2])
+				for i, n := 0, 0; i < len(format) && ok; i, n = i+1, n+1 {
+					if j := strings.IndexByte(format[i:], '%'); j != 0 { // literal run
+						if j < 0 {
+							j = len(format) - i
+						}
+						add(c11Emit{kind: "lit", lit: format[i : i+j], seq: n})
+						i += j - 1
+						continue
+					}
+					i++
+					kind := ""
+					if i < len(format) {
+						kind = map[byte]string{'c': "byte", 'd': "dec"}[format[i]]
+					}
+					mi, isMI := ssa.Value(nil), false
+					if len(va) > 0 {
+						mi, isMI = va[0].(*ssa.MakeInterface)
+					}
+					if ok = kind != "" && isMI; ok {
+						add(c11Emit{kind: kind, val: mi.(*ssa.MakeInterface).X, seq: n})
+						va = va[1:]
+					}
 				}
-				if ok = kind != "" && isMI; ok {
-					add(c11Emit{kind: kind, val: mi.(*ssa.MakeInterface).X, seq: n})
-					va = va[1:]
+				if !ok {
+					bad = "Fprintf with a non-constant format, a verb other than %c/%d, or arguments not built in place"
+				}
+			default:
+				if (strings.HasPrefix(name, "strings.Builder.") && name != "strings.Builder.String") || strings.HasPrefix(name, "fmt.F") {
+					bad = "unmodelled output call " + name
 				}
 			}
-			if !ok {
-				bad = "Fprintf with a non-constant format, a verb other than %c/%d, or arguments not built in place"
-			}
-		default:
-			if (strings.HasPrefix(name, "strings.Builder.") && name != "strings.Builder.String") || strings.HasPrefix(name, "fmt.F") {
-				bad = "unmodelled output call " + name
-			}
-		}
-	})
+		})
+	}
+	scan(fn, nil, 0)
 	return ems, bad
+}
+
+// c11TakesBuilder: fn has a *strings.Builder / io.Writer parameter (a printing helper).
+func c11TakesBuilder(fn *ssa.Function) bool {
+	for _, p := range fn.Params {
+		if t := p.Type().String(); t == "*strings.Builder" || t == "io.Writer" {
+			return true
+		}
+	}
+	return false
 }
 
 // c11Before: instruction a is executed before b on every path containing both, and some path contains both
@@ -1926,21 +2419,26 @@ func (m *c11Model) squareText(callee *ssa.Function, s int64) ([]int64, bool) {
 	if n != 1 || len(callee.Params) != 1 || len(ret.Results) != 1 {
 		return nil, false
 	}
-	sp, ok := ret.Results[0].(*ssa.Call)
-	if !ok || sp.Call.StaticCallee() == nil || externName(fnObj(sp.Call.StaticCallee())) != "fmt.Sprintf" {
-		return nil, false
+	var va []ssa.Value
+	if cv, isConv := ret.Results[0].(*ssa.Convert); isConv { // string([]byte{f(s), g(s)})
+		va = c11Varargs(cv.X)
+	} else if sp, ok := ret.Results[0].(*ssa.Call); ok && c11Name(sp.Call.StaticCallee()) == "fmt.Sprintf" {
+		if f, _ := c11Str(sp.Call.Args[0]); f == "%c%c" {
+			va = c11Varargs(sp.Call.Args[1])
+		}
 	}
-	va := c11Varargs(sp.Call.Args[1])
-	if f, _ := c11Str(sp.Call.Args[0]); f != "%c%c" || len(va) != 2 {
+	if len(va) != 2 {
 		return nil, false
 	}
 	var out []int64
 	for _, a := range va {
-		mi, ok := a.(*ssa.MakeInterface)
-		if !ok {
+		if mi, ok := a.(*ssa.MakeInterface); ok {
+			a = mi.X
+		}
+		if a == nil {
 			return nil, false
 		}
-		ch, ok := m.eval(mi.X, c11Env{callee.Params[0]: s})
+		ch, ok := m.eval(a, c11Env{callee.Params[0]: s})
 		if !ok {
 			return nil, false
 		}
@@ -2225,6 +2723,8 @@ func c11R3(c *Ctx, m *c11Model) {
 		switch {
 		case r.lo > w.lo || r.hi < w.hi:
 			c.Fail(rule, key, sts[0].Pos(), "the parser accepts %s only in %s; every value in [%d,%d] is printable for a valid position and must be accepted", w.field, r, w.lo, w.hi)
+		case !r.within(tr.lo, tr.hi) && (r.lo == math.MinInt64 || r.hi == math.MaxInt64):
+			c.Undec(rule, key, sts[0].Pos(), "no dominating comparison bounds the value stored into %s on one side (range %s, field type %s): the range test is in a form this rule does not see", w.field, r, tr)
 		case !r.within(tr.lo, tr.hi):
 			c.Fail(rule, key, sts[0].Pos(), "accepted range %s of %s does not fit the field type (%s): the stored value differs from the text", r, w.field, tr)
 		default:
@@ -2314,9 +2814,21 @@ func init() {
 	kq.File2, kq.Old2, kq.New2 = fen, "if b.Castles&LongBlack != 0 {\n\t\tsb.WriteString(\"q\")", "if b.Castles&LongBlack != 0 {\n\t\tsb.WriteString(\"k\")"
 	addMutants(
 		// R1 — each is a real crash of ParseFEN; the crashing input is given in the comment
-		quick(mut("R1-ep-lookahead-off-by-one", fen, "if fp.ix+1 >= fp.l {", "if fp.ix+1 > fp.l {", "R1/board.(*fenParser).enPassant#fen[ix+1]")),                                                                                          // "8/8/8/8/8/8/8/8 w - e"
-		quick(mut("R1-seq-end-check-dropped", fen, endCheck, "", "R1/board.(*fenParser).seq#entry-fact")),                                                                                                                                  // "8/8/8/8/8/8/8/8"
-		mut("R1-seq-end-check-dropped-stm-crashes", fen, endCheck, "", "R1/board.(*fenParser).stm#fen[ix+0]"),                                                                                                                              // same
+		quick(mut("R1-ep-lookahead-off-by-one", fen, "if fp.ix+1 >= fp.l {", "if fp.ix+1 > fp.l {", "R1/board.(*fenParser).enPassant#fen[ix+1]")), // "8/8/8/8/8/8/8/8 w - e"
+		quick(mut("R1-seq-end-check-dropped", fen, endCheck, "", "R1/board.(*fenParser).seq#entry-fact")),                                         // "8/8/8/8/8/8/8/8"
+		mut("R1-seq-end-check-dropped-stm-crashes", fen, endCheck, "", "R1/board.(*fenParser).stm#fen[ix+0]"),                                     // same
+		func() Mutant { // the space skipping moved into a helper whose end test is off by one: "8/8/8/8/8/8/8/8 " crashes in stm
+			m := mut("R1-helper-end-check-off-by-one", fen, "\t\t} else {\n\t\t\tfor fp.ix < fp.l && fp.fen[fp.ix] == ' ' {\n\t\t\t\tfp.ix++\n\t\t\t}\n\n"+endCheck+"\t\t}\n",
+				"\t\t} else if err := fp.skipSpaces(); err != nil {\n\t\t\treturn err\n\t\t}\n", "R1/board.(*fenParser).seq#entry-fact")
+			m.File2, m.Old2 = fen, "func (fp *fenParser) seq("
+			m.New2 = "func (fp *fenParser) skipSpaces() error {\n\tfor fp.ix < fp.l && fp.fen[fp.ix] == ' ' {\n\t\tfp.ix++\n\t}\n\tif fp.ix > fp.l {\n\t\treturn errors.New(\"premature end of fen\")\n\t}\n\treturn nil\n}\n\nfunc (fp *fenParser) seq("
+			return m
+		}(),
+		func() Mutant { // a bool helper that is off by one: "8/8/8/8/8/8/8/8 w - - 0" crashes in counter
+			m := mut("R1-helper-more-off-by-one", fen, "func (fp *fenParser) counter() (int, error) {\n\tcnt := 0\n\tfor fp.ix < fp.l && fp.fen[fp.ix] != ' ' {",
+				"func (fp *fenParser) more() bool { return fp.ix <= fp.l }\n\nfunc (fp *fenParser) counter() (int, error) {\n\tcnt := 0\n\tfor fp.more() && fp.fen[fp.ix] != ' ' {", "R1/board.(*fenParser).counter#fen[")
+			return m
+		}(),
 		mut("R1-first-flag-never-cleared", fen, "\t\t\tfirst = false\n", "", "R1/board.(*fenParser).seq#entry-fact"),                                                                                                                       // "8/8/8/8/8/8/8/8"
 		quick(mut("R1-square-bound-off-by-one", fen, "if sq < 0 || sq > 63 {", "if sq < 0 || sq > 64 {", "R1/board.(*fenParser).position#array-index")),                                                                                    // "8p"
 		mut("R1-position-loop-unguarded", fen, "for fp.ix < fp.l {\n\t\tsq :=", "for {\n\t\tsq :=", "R1/board.(*fenParser).position#fen["),                                                                                                 // "8"
@@ -2331,6 +2843,8 @@ func init() {
 		quick(mut("R2-install-before-piece-count", uci, "\t\tif b.InvalidPieceCount() {\n\t\t\tfmt.Fprintln(d.err, \"invalid piece counts\")\n\t\t\treturn\n\t\t}\n\t\td.board = b\n",
 			"\t\td.board = b\n\t\tif b.InvalidPieceCount() {\n\t\t\tfmt.Fprintln(d.err, \"invalid piece counts\")\n\t\t\treturn\n\t\t}\n", "R2/uci.(*Driver).handlePosition#install:piece-count")),
 		mut("R2-parse-error-only-logged", uci, "\t\t\tfmt.Fprintf(d.err, \"invalid fen %v\\n\", err)\n\t\t\treturn\n", "\t\t\tfmt.Fprintf(d.err, \"invalid fen %v\\n\", err)\n", "R2/uci.(*Driver).handlePosition#install:err==nil"),
+		mut("R2-parse-in-place-no-restore", uci, "\t\tb, err := board.FromFEN(fen)\n\t\tif err != nil {\n\t\t\tfmt.Fprintf(d.err, \"invalid fen %v\\n\", err)\n\t\t\treturn\n\t\t}\n\t\tif b.InvalidPieceCount() {\n\t\t\tfmt.Fprintln(d.err, \"invalid piece counts\")\n\t\t\treturn\n\t\t}\n\t\td.board = b\n",
+			"\t\tsaved := *d.board\n\t\tif err := board.ParseFEN(d.board, []byte(fen)); err != nil {\n\t\t\t*d.board = saved\n\t\t\tfmt.Fprintf(d.err, \"invalid fen %v\\n\", err)\n\t\t\treturn\n\t\t}\n\t\tif d.board.InvalidPieceCount() {\n\t\t\tfmt.Fprintln(d.err, \"invalid piece counts\")\n\t\t\treturn\n\t\t}\n\t\td.board.ResetHash()\n", "R2/uci.(*Driver).handlePosition#in-place"),
 		mut("R2-fromfen-without-hash", fen, "\tb.ResetHash()\n\n\treturn &b, nil", "\treturn &b, nil", "R2/board.FromFEN#return:hash-reset"),
 		// R3
 		quick(kq),
